@@ -401,3 +401,121 @@ func VerifH_C12_timedSmoke() {
 		vpAssert(false, "smoke:timer-fired-by-its-deadline")
 	}
 }
+
+// VerifH_C12_timedBatch: the real dispatcher and a real worker in virtual
+// time.  A batch with an idle (progress) timeout of 10 s and a hard
+// timeout of one hour is handed to one peer that answers some of its
+// requests 4 s or 7 s apart and then falls silent.  The batch must get its
+// single verdict exactly 10 s after its last success (success at once if
+// everything was answered), its in-flight request must be cancelled, a
+// later batch must still be served and Stop must return.
+func VerifH_C12_timedBatch() {
+	vpOpt("clock", 1)
+	vpOpt("timed", 1)
+	vpOpt("timers", 64)
+	vpForceFinish = false
+	const idle = 10 * time.Second
+	peerChan := make(chan Peer, 4)
+	wm := NewWorkManager(&Config{
+		ConnectedPeers: func() (<-chan Peer, func(), error) { return peerChan, func() {}, nil },
+		NewWorker:      NewWorker,
+		Ranking:        NewPeerRanking(),
+	})
+	wm.Start()
+	p := &vpPeer{addr: "a", msgs: make(chan wire.Message, 8), disconnect: make(chan struct{})}
+	peerChan <- p
+	vpQuiesce()
+
+	nreq := vpRange("requests", 2, vpParam("maxrequests", 3))
+	finished := 0
+	mk := func(n int, tag uint64) []*Request {
+		var reqs []*Request
+		for k := 0; k < n; k++ {
+			reqs = append(reqs, &Request{Req: wire.NewMsgPing(tag + uint64(k)),
+				HandleResp: func(req, resp wire.Message, peer string) Progress {
+					finished++
+					return Progress{Finished: true, Progressed: true}
+				}})
+		}
+		return reqs
+	}
+	errChan := wm.Query(mk(nreq, 0), Timeout(time.Hour), ProgressTimeout(idle), NoRetryMax())
+	vpQuiesce()
+	var verdict error
+	got := 0
+	poll := func() {
+		for {
+			select {
+			case err := <-errChan:
+				got++
+				verdict = err
+				continue
+			default:
+			}
+			return
+		}
+	}
+	now, last := time.Duration(0), time.Duration(0)
+	answers := vpRange("answersBeforeSilence", 0, nreq)
+	for k := 0; k < answers; k++ {
+		gap := []time.Duration{4 * time.Second, 7 * time.Second}[vpRange("gap", 0, 1)]
+		time.Sleep(gap)
+		now += gap
+		vpQuiesce()
+		poll()
+		if got != 0 && verdict != nil {
+			vpAssert(false, "dbg1:"+verdict.Error())
+		}
+		vpAssert(got == 0, "no-verdict-while-the-peer-keeps-answering-in-time")
+		p.msgs <- wire.NewMsgPong(uint64(k))
+		vpQuiesce()
+		last = now
+		vpAssert(finished == k+1, "each-message-answers-one-outstanding-request")
+	}
+	if answers == nreq {
+		poll()
+		vpReach("all-answered-in-time")
+		vpAssert(got == 1 && verdict == nil, "all-answered-batch-reports-success-at-once")
+	} else {
+		if answers > 0 {
+			vpReach("progress-then-silence")
+		} else {
+			vpReach("silence-from-the-start")
+		}
+		time.Sleep(last + idle - now - time.Second)
+		vpQuiesce()
+		poll()
+		vpAssert(got == 0, "no-idle-verdict-before-the-deadline")
+		time.Sleep(time.Second + time.Millisecond)
+		vpQuiesce()
+		poll()
+		vpAssert(got == 1 && verdict == ErrQueryTimeout, "idle-timeout-verdict-exactly-one-timeout-after-the-last-success")
+	}
+	// a later batch is served by the same peer
+	before := finished
+	errChan2 := wm.Query(mk(1, 100), Timeout(time.Hour), NoRetryMax())
+	vpQuiesce()
+	// the worker may still be unwinding the cancelled request: the peer answers for up to a minute
+	var v2 error
+	got2 := 0
+	for round := 0; round < 12 && got2 == 0; round++ {
+		if len(p.msgs) < cap(p.msgs) {
+			p.msgs <- wire.NewMsgPong(200)
+		}
+		vpQuiesce()
+		select {
+		case v2 = <-errChan2:
+			got2++
+		default:
+			time.Sleep(5 * time.Second)
+		}
+	}
+	vpAssert(got2 == 1 && v2 == nil, "a-later-batch-is-served-after-the-timed-out-one")
+	if answers < nreq {
+		vpAssert(finished == before+1, "requests-of-the-timed-out-batch-are-not-answered-afterwards")
+	}
+	wm.Stop()
+	vpReach("stopped")
+	poll()
+	vpAssert(got == 1, "every-batch-gets-exactly-one-verdict")
+}
